@@ -205,7 +205,7 @@ theorem replaced_circuit_is_sent (w : World) (op : Op) (c : Nat)
       split at hdone
       · cases hdone
       · rename_i e' hf
-        simp only [hf, World.circ, Option.map_some, Option.some.injEq]
+        simp only [World.circ, Option.map_some, Option.some.injEq]
         split at hf
         · cases hf
         · unfold setCircuit at hf
@@ -218,7 +218,7 @@ theorem replaced_circuit_is_sent (w : World) (op : Op) (c : Nat)
       split at hdone
       · cases hdone
       · rename_i e' hf
-        simp only [hf, World.circ, Option.map_some, Option.some.injEq]
+        simp only [World.circ, Option.map_some, Option.some.injEq]
         split at hf
         · cases hf
         · cases hf; rfl
